@@ -279,6 +279,64 @@ pub fn replay(rep: &mut Report, v: &serde_json::Value) {
     rep.streams.push(st);
 }
 
+/// The bearing commands (`B` / `b`) of path data are rewritten by bearing.rs before anything else looks
+/// at the path: same scanner, its own loop. Hook path_bearing vs the Lean model Svgdx.Bearing (the
+/// function bearing_scanner_total is about), on Float32 with libm sin / cos: the rewritten string, or the
+/// error kind, must be the same.
+fn bearing_stream(rep: &mut Report, drv: &mut Driver, rng: &mut Rng, n: usize) -> Result<(), String> {
+    let mut st = Stream::new(
+        "path/bearing",
+        "correspondence",
+        "path data with bearing commands: grammar-directed strings (M / m / l / h / v / L / H / V / C / q / a / z with implicit repetition, B and b with angles on and off the quadrants, huge and tiny, numbers in every SVG spelling, every comma-whitespace form, commands written without separators) and damaged ones (missing operands, unknown letters, stray signs and dots): hook path_bearing vs Svgdx.Bearing.processPathBearing on Float32, output string or error kind; the model never reports exhausted fuel",
+    );
+    let angles = ["0", "90", "-90", "180", "270", "45", "30", "-0", "360", "36", "72", "1e39", "0.5", "-135", "1e-9", "12345.678"];
+    let nums = |rng: &mut Rng| -> String { match rng.below(10) { 0 => "0".into(), 1 => "-0".into(), 2 => ".5".into(), 3 => "1e2".into(), 4 => "-3.25".into(), 5 => "+7".into(), 6 => "2147483648".into(), 7 => "1e-5".into(), _ => format!("{}", rng.range(-400, 400) as f64 / 4.0) } };
+    let sep = |rng: &mut Rng| -> &'static str { *rng.pick(&[" ", ",", " , ", "", "  ", "\n", "\t"]) };
+    for i in 0..n {
+        let mut d = String::new();
+        if rng.chance(1, 6) { d.push_str(*rng.pick(&[" ", "\n  ", ","])); }
+        if rng.chance(5, 6) { d.push_str(&format!("M{}{}{}{}", sep(rng), nums(rng), *rng.pick(&[" ", ","]), nums(rng))); }
+        for _ in 0..rng.below(9) {
+            d.push_str(sep(rng));
+            match rng.below(12) {
+                0 | 1 => { d.push_str(*rng.pick(&["B", "b"])); d.push_str(sep(rng)); d.push_str(*rng.pick(&angles)); }
+                2 | 3 => { d.push_str(*rng.pick(&["h", "v"])); d.push_str(sep(rng)); d.push_str(&nums(rng)); if rng.chance(1, 3) { d.push(' '); d.push_str(&nums(rng)); } }
+                4 | 5 => { d.push_str(*rng.pick(&["l", "m"])); for _ in 0..1 + rng.below(3) { d.push_str(sep(rng)); d.push_str(&nums(rng)); d.push_str(*rng.pick(&[" ", ",", "-"])); d.push_str(&nums(rng)); } }
+                6 => { d.push_str(*rng.pick(&["L", "H", "V", "T", "t"])); d.push_str(sep(rng)); d.push_str(&nums(rng)); d.push(' '); d.push_str(&nums(rng)); }
+                7 => { d.push_str(*rng.pick(&["C", "c", "q", "S"])); for _ in 0..4 { d.push(' '); d.push_str(&nums(rng)); } }
+                8 => { d.push_str("a 5 5 0 0 1 "); d.push_str(&nums(rng)); d.push(' '); d.push_str(&nums(rng)); }
+                9 => d.push_str(*rng.pick(&["z", "Z", "z z"])),
+                // damage
+                10 => d.push_str(*rng.pick(&["B", "b ", "l 1", "h", "x 1 2", "-", ".", "e5", "B 1 2 3", "bb", "Bh1"])),
+                _ => { d.push_str(&nums(rng)); d.push(' '); d.push_str(&nums(rng)); }
+            }
+        }
+        if i % 50 == 0 { d = format!("{d}{}", "l1 1".repeat(200)); }
+        st.case(&d, !d.is_empty(), || json!({"d": d}));
+        let dd = d.clone();
+        let imp = std::panic::catch_unwind(move || svgdx::verif_hooks::path_bearing(&dd));
+        let m = drv.call("path_bearing", &[&d])?;
+        let ms = m.first().map(|s| s.as_str()).unwrap_or("");
+        if ms == "fuel" {
+            rep.violation(Violation { kind: "correspondence", stream: st.name.clone(), signature: "bearing:model-out-of-fuel".into(), what: format!("the model ran out of fuel on {d:?}"), replay: json!({"d": d}), confirmed_on_impl: false });
+            continue;
+        }
+        match imp {
+            Err(_) => rep.violation(Violation { kind: "oracle", stream: st.name.clone(), signature: "C01:panic:bearing".into(), what: format!("process_path_bearing panics on {d:?}"), replay: json!({"input_hex": hex(format!("<svg><path d=\"{d}\"/></svg>").as_bytes()), "d": d}), confirmed_on_impl: true }),
+            Ok(r) => {
+                let (is, iv) = match &r { Ok(out) => ("ok".to_string(), out.clone()), Err(e) => ("err".to_string(), crate::util::err_kind(e)) };
+                let mv = m.get(1).cloned().unwrap_or_default();
+                st.tally(&format!("impl={is}{}", if is == "err" { format!(":{iv}") } else { String::new() }));
+                if is == ms && iv == mv { st.exact += 1; if is == "err" { st.errors_agreed += 1; } } else {
+                    rep.violation(Violation { kind: "correspondence", stream: st.name.clone(), signature: "bearing:outcome".into(), what: format!("d={d:?}: impl {is} {iv:?} vs model {m:?}"), replay: json!({"d": d}), confirmed_on_impl: false });
+                }
+            }
+        }
+    }
+    rep.streams.push(st);
+    Ok(())
+}
+
 /// The structured generators of the other properties (relative placement, shorthand spellings,
 /// containment, connectors, scoping, loops, limits, reuse, text, extents) reach corners of the code that
 /// byte-level fuzzing does not: degenerate but valid geometry, long well-formed programs. Each of their
@@ -371,6 +429,7 @@ pub fn run(rep: &mut Report, tier: &str, seed: u64) -> Result<(), String> {
 
     let mut drv = Driver::start()?;
     path_stream(rep, &mut drv, &mut rng.fork(), n_path)?;
+    bearing_stream(rep, &mut drv, &mut rng.fork(), n_path)?;
     frontends_stream(rep, &mut rng.fork(), n_front);
     sweep_other_generators(rep, tier, seed);
     Ok(())
